@@ -32,7 +32,7 @@ TOL = 1e-9
 
 
 def mk(pos, edges, crossing):
-    return Lattice(pos.copy(), edges.copy(), crossing.copy())
+    return Lattice(*layout_variant(pos, edges, crossing)[:3])
 
 
 def arr(lat):
